@@ -1,4 +1,5 @@
 """Per-property configuration of the check engine."""
+import c09 as _c09
 
 TRUSTED_BASE = [
     "Lean 4.33.0 kernel (lake build); leanchecker re-check in the thorough tier where configured",
@@ -147,6 +148,29 @@ PROPS = {
         "assumptions": [
             "storage and transfer damage only: files whose blocks were re-checksummed by an adversary are outside the claim",
             "real SIGBUS/SIGSEGV, allocator aborts and OS-level blocking can only be exhibited by the runner, not by the model",
+        ],
+    },
+    "C07": {
+        "theorems": "JubakoModel.Theorems.C07",
+        "harness": "c07",
+        "profiles": ["debug"],
+        "rule": "one case = one content pack of 45..85 compressed clusters (more than the 40 cache slots and the 8 pool threads; each cluster ~12 KB = 3..4 decode chunks) read concurrently by 2,3,4,8,16,32 threads x 60 (quick) / 200 (thorough) reads each (hot contents shared by all threads, neighbours, random; whole stream / partial get_slice / cut-and-stream), with the jubako_verif hooks sleeping or yielding seeded amounts at every schedule point; every third case damages compressed payloads so that decoders fail midway; oracle: bytes equal the inserted content (errors only on damaged clusters), termination within the bound; the event history of every shared decode buffer (publish / fail / wait / woke / slice, in global order) is replayed on the SyncVec transition system; non-trivial = at least one buffer history",
+        "assumptions": [
+            "Rust-level data-race freedom (raw-pointer read of [0,d) concurrent with read_to_end into spare capacity; the mutex as the only happens-before edge) is argued from sv_disjoint + 'publish happens under the lock after the write', it is not a Lean theorem; memory errors are outside what the model can exhibit",
+            "the hooks are the schedule points; interleavings inside a step (e.g. between the decoder's write and its lock acquisition) are perturbed by sleeps, not enumerated",
+            "cluster cache, raw->plain switch and pack slots are modelled as maps whose handles stay valid after eviction (Arc); their locks are perturbed, their histories are not replayed",
+        ],
+    },
+    "C09": {
+        "theorems": "JubakoModel.Theorems.C09",
+        "harness": "c09",
+        "custom": _c09.run,
+        "profiles": ["debug"],
+        "rule": "one case = one scenario (packaging one-file / two-files / no-concat) x (no previous file / a previous complete container at the destination): the creation child is run once under strace to record its file-system trace (checked disciplined by the Lean model) and then re-run from a fresh directory once per fault point: the k-th output syscall (write, pwrite64, writev, copy_file_range, sendfile; per thread) fails with EIO, or the process is killed at its entry; k ranges over every output syscall of the run in the thorough tier and ~16 evenly spread points (incl. first/last) in the quick tier; after each run the destination is classified: absent / previous file byte for byte / complete (opens, expected logical dump, check true); after an error return no temporary file may remain; non-trivial = scenario with at least one fault point",
+        "assumptions": [
+            "crash = process termination, not power loss: rename is atomic and nothing is reordered (built into the FS model)",
+            "fault points are output syscalls as strace sees them; a failure in the middle of a syscall (short write) is not injected",
+            "tempfile unlinks its temporary on drop; a killed process leaves it (stray .tmpXXXX files are allowed after a kill, not after an error return)",
         ],
     },
 }
